@@ -67,8 +67,12 @@ var c03Layouts = []cookieLayout{
 	{"quoted-value", func(s string) []string { return []string{`Cookie: q="quoted value"; ` + s + `; r="x"`} }, [][2]string{{"q", "quoted value"}, {"r", "x"}}},
 	{"separate-lines", func(s string) []string { return []string{"Cookie: a=1", "Cookie: " + s, "Cookie: b=2"} }, [][2]string{{"a", "1"}, {"b", "2"}}},
 	{"no-space", func(s string) []string { return []string{"Cookie: a=1;" + s + ";b=2"} }, [][2]string{{"a", "1"}, {"b", "2"}}},
+	{"space-before-equals", func(s string) []string { return []string{"Cookie: a=1; " + strings.Replace(s, "=", " =", 1) + "; b=2"} }, [][2]string{{"a", "1"}, {"b", "2"}}},
+	{"tab-before-equals", func(s string) []string { return []string{"Cookie: a=1; " + strings.Replace(s, "=", "\t=", 1)} }, [][2]string{{"a", "1"}}},
 	{"value-with-equals", func(s string) []string { return []string{"Cookie: tok=abc==; " + s + "; csrf=x=y"} }, [][2]string{{"tok", "abc=="}, {"csrf", "x=y"}}},
 }
+
+const hostP = "preflight.sso.test"
 
 func c03Run(c *fw.Ctx) {
 	c.Retries = 2 // socket-based harness: tolerate a transient glitch while replaying a prefix
@@ -99,7 +103,10 @@ func c03Run(c *fw.Ctx) {
 		inj := injects[x.Choose("inject", len(injects))]
 		e := envs[inj.name]
 		if e == nil {
-			y := "- service: svca\n  default:\n    from: " + hostA + "\n    to: {{backend:a}}\n    options:\n      allowed_groups:\n        - eng\n      skip_auth_regex:\n        - '^/public/'\n" + inj.yaml
+			y := "- service: svca\n  default:\n    from: " + hostA + "\n    to: {{backend:a}}\n    options:\n      allowed_groups:\n        - eng\n      skip_auth_regex:\n        - '^/public/'\n" + inj.yaml +
+				// a second upstream that lets CORS preflight requests through unauthenticated (the documented
+				// options key skip_auth_preflight is never applied; the upstream-level key is what takes effect)
+				"- service: svcp\n  default:\n    from: " + hostP + "\n    to: {{backend:a}}\n    skipauthpreflight: true\n    options:\n      allowed_groups:\n        - eng\n" + inj.yaml
 			var err error
 			e, err = harness.NewProxyEnv(harness.ProxyOpts{YAML: y, Backends: []string{"a"}, TemplateVars: map[string]string{}})
 			if err != nil {
@@ -107,7 +114,7 @@ func c03Run(c *fw.Ctx) {
 			}
 			envs[inj.name] = e
 		}
-		handling := []string{"authenticated", "skip-auth"}[x.Choose("handling", 2)]
+		handling := []string{"authenticated", "skip-auth", "preflight"}[x.Choose("handling", 3)]
 		layout := c03Layouts[x.Choose("cookie-layout", len(c03Layouts))]
 		conn := conns[x.Choose("connection", len(conns))]
 		var chosen [4]int
@@ -127,7 +134,11 @@ func c03Run(c *fw.Ctx) {
 			path = "/public/page"
 		}
 		var lines []string
-		lines = append(lines, "GET "+path+" HTTP/1.1", "Host: "+hostA)
+		if handling == "preflight" {
+			lines = append(lines, "OPTIONS "+path+" HTTP/1.1", "Host: "+hostP, "Origin: https://app.example", "Access-Control-Request-Method: POST")
+		} else {
+			lines = append(lines, "GET "+path+" HTTP/1.1", "Host: "+hostA)
+		}
 		var desc []string
 		for i, h := range identityHeaders {
 			l := variants[chosen[i]].Lines(h)
@@ -183,9 +194,9 @@ func c03Run(c *fw.Ctx) {
 				suffix = "/connection-nominated"
 			}
 			switch {
-			case handling == "skip-auth":
+			case handling == "skip-auth" || handling == "preflight":
 				if len(got) > 0 {
-					viol("skip-auth/client-header-passthrough/"+h+suffix, fmt.Sprintf("unauthenticated skip-auth request reached the upstream with %s: %q", h, got))
+					viol(handling+"/client-header-passthrough/"+h+suffix, fmt.Sprintf("unauthenticated "+handling+" request reached the upstream with %s: %q", h, got))
 				}
 			case h == "X-Forwarded-Access-Token":
 				// the option is not enabled: the header must be absent
@@ -248,9 +259,9 @@ func init() {
 		ID:    "C03",
 		Level: "exploration",
 		Rule: "full product, as raw HTTP/1.1 bytes to a real net/http server in front of the real proxy chain, recorded at a backend behind the real reverse proxy: " +
-			"for each of the four identity headers a client variant {absent, canonical, lower-case sent twice (thorough: mixed case, empty value)} x 10 Cookie header layouts (session cookie only/first/middle/last, two session cookies, prefix and suffix look-alike names, quoted values, separate Cookie lines, no space, '=' in values) " +
-			"x handling {authenticated, skip-auth path} x session groups {two, none} x Connection header {plain, nominating identity headers} x inject_request_headers {none, unrelated, colliding with an identity header}; " +
-			"oracle at the backend: authenticated => the three identity headers exactly once with the session's values and no access-token header (option off); skip-auth => all four absent; the session cookie never arrives; every other cookie arrives with the same name and value; " +
+			"for each of the four identity headers a client variant {absent, canonical, lower-case sent twice (thorough: mixed case, empty value)} x 12 Cookie header layouts (session cookie name followed by a space / a tab before '=', session cookie only/first/middle/last, two session cookies, prefix and suffix look-alike names, quoted values, separate Cookie lines, no space, '=' in values) " +
+			"x handling {authenticated, skip-auth path, CORS preflight (OPTIONS) on an upstream that lets preflights through} x session groups {two, none} x Connection header {plain, nominating identity headers} x inject_request_headers {none, unrelated, colliding with an identity header}; " +
+			"oracle at the backend: authenticated => the three identity headers exactly once with the session's values and no access-token header (option off); skip-auth and preflight => all four absent; the session cookie never arrives; every other cookie arrives with the same name and value; " +
 			"distinct_nontrivial = distinct (handling, layout, inject, connection, client header variants) cases that were forwarded",
 		Assumptions:    []string{"pass_access_token cannot be enabled through the YAML options (parseOptionsConfig does not copy it), so only the 'disabled' half of that clause is exercised", "preflight skipping likewise cannot be configured"},
 		Parallel:       true,
